@@ -121,8 +121,14 @@ MustErr(why) == [k |-> "err", why |-> why]
 Offreal == [k |-> "offreal"]
 Underflow == [k |-> "underflow"]
 Silent(v) == [k |-> "silent", v |-> v]
-OutcomeKinds == {"exact", "sqrtof", "angle", "defined", "err", "offreal", "underflow", "silent"}
-Allowed(o) == IF o.k = "err" THEN "err" ELSE IF o.k \in {"offreal", "underflow", "silent"} THEN "valOrErr" ELSE "val"
+\*     "silentsqrt" the documentation does not say (norm of an array with three or more axes): the root of q, or an error
+\*     "numberlike" an array with exactly one entry where a number is expected: the library may read it as that number
+\*                  (its "number-like" arrays) or refuse it; the statement does not say, so any finite value or an error
+SilentSqrt(q) == [k |-> "silentsqrt", q |-> q]
+NumberLike == [k |-> "numberlike"]
+OutcomeKinds == {"exact", "sqrtof", "angle", "defined", "err", "offreal", "underflow", "silent", "silentsqrt", "numberlike"}
+Allowed(o) == IF o.k = "err" THEN "err"
+              ELSE IF o.k \in {"offreal", "underflow", "silent", "silentsqrt", "numberlike"} THEN "valOrErr" ELSE "val"
 
 \* ------------------------------------------------------------------ domains of the scalar functions (exact predicates)
 (* "in" inside the domain; "pole" no value exists; "offreal" (see above); "offdomain" real-only function given a
@@ -231,7 +237,22 @@ TraceOf(a) == A!GSumSeq(Tup([i \in 1..a.sh[1] |-> A!At(a, i, i)], a.sh[1]))
 CrossOf(u, v) == LET m(i, j) == A!GSub(A!GMul(u.e[i], v.e[j]), A!GMul(v.e[i], u.e[j])) IN
                  [sh |-> <<3>>, e |-> <<m(2, 3), m(3, 1), m(1, 2)>>]
 DotOf(u, v) == A!GSumSeq(Tup([i \in 1..Len(u.e) |-> A!GMul(u.e[i], v.e[i])], Len(u.e)))
-AbsLike(a) == IF A!IsScalar(a) THEN ScalarApply("abs", a.e[1]) ELSE SqrtOf(Norm2(a))
+AbsLike(a) == IF A!IsScalar(a) THEN ScalarApply("abs", a.e[1])
+              ELSE IF A!Rank(a) <= 2 THEN SqrtOf(Norm2(a)) ELSE SilentSqrt(Norm2(a))
+(* arrays with three axes: "transpose" has no textbook meaning there; the only candidate value is the array with its
+   axes in reverse order (what the transpose of a matrix is, and what numpy returns) -- that or an error.
+   det, trace (square MATRIX), cross (3-vectors) and the Matrix table's abs (number or vector) must refuse them. *)
+RevAxes3(a) == LET p == a.sh[1]  q == a.sh[2]  r == a.sh[3] IN
+               [sh |-> <<r, q, p>>,
+                e |-> Tup([n \in 1..(p * q * r) |->
+                             LET k == (n - 1) \div (q * p)
+                                 j == ((n - 1) \div p) % q
+                                 i == (n - 1) % p
+                             IN
+                             a.e[i * q * r + j * r + k + 1]], p * q * r)]
+TransLike(a) == IF A!IsMatrix(a) THEN X(A!Transpose(a)) ELSE IF A!Rank(a) = 3 THEN Silent(RevAxes3(a)) ELSE Silent(a)
+CTransLike(a) == IF A!IsMatrix(a) THEN X(ConjArr(A!Transpose(a)))
+                 ELSE IF A!Rank(a) = 3 THEN Silent(ConjArr(RevAxes3(a))) ELSE Silent(ConjArr(a))
 
 \* a call whose argument count and shapes are right
 Apply(tb, f, args) ==
@@ -253,8 +274,8 @@ Apply(tb, f, args) ==
                   ELSE IF f = "im" THEN A!Map1(a, LAMBDA g : GR(g[2])) ELSE ConjArr(a) IN
          IF A!IsScalar(a) THEN X(v) ELSE Silent(v)
     [] f = "norm" -> AbsLike(a)
-    [] f = "trans" -> IF A!IsMatrix(a) THEN X(A!Transpose(a)) ELSE Silent(a)
-    [] f \in {"ctrans", "adj"} -> IF A!IsMatrix(a) THEN X(ConjArr(A!Transpose(a))) ELSE Silent(ConjArr(a))
+    [] f = "trans" -> TransLike(a)
+    [] f \in {"ctrans", "adj"} -> CTransLike(a)
     [] f = "det" -> XS(A!Det(a))
     [] f = "trace" -> XS(TraceOf(a))
     [] f = "cross" -> X(CrossOf(a, args[2]))
@@ -265,6 +286,8 @@ Outcome(tb, f, args) ==
   ELSE IF tb = "override" THEN XS(GI(Marker(f)))             \* the author's function, whatever the arguments
   ELSE LET s == SigOf(tb)[f] IN
        IF ~CountOK(s, Len(args)) THEN MustErr("argcount")
+       ELSE IF s.p = "scalar" /\ (\E i \in 1..Len(args) : ~A!IsScalar(args[i]))
+                           /\ (\A i \in 1..Len(args) : Len(args[i].e) = 1) THEN NumberLike
        ELSE IF \E i \in 1..Len(args) : ~ShapeOK(s.p, args[i]) THEN MustErr("argshape")
        ELSE Apply(tb, f, args)
 
@@ -307,10 +330,12 @@ GaussT(z) == IF IsRe(z) THEN RatT(z[1])
              ELSE LET im == IF z[2] = One THEN Ivar ELSE IF z[2] = Neg(One) THEN NegT(Ivar) ELSE MulT(RatT(z[2]), Ivar) IN
                   IF z[1][1] = 0 THEN im ELSE AddT(RatT(z[1]), im)
 NegZeroT == NegT(NatT(0))                  \* the number 0 written as -0
+\* a nested literal, one bracket level per axis
+RECURSIVE ArrayT(_)
 ArrayT(a) == IF A!IsScalar(a) THEN GaussT(a.e[1])
-             ELSE IF A!IsVector(a) THEN ArrT(Tup([i \in 1..a.sh[1] |-> GaussT(a.e[i])], a.sh[1]))
-             ELSE ArrT(Tup([i \in 1..a.sh[1] |->
-                             ArrT(Tup([j \in 1..a.sh[2] |-> GaussT(A!At(a, i, j))], a.sh[2]))], a.sh[1]))
+             ELSE LET m == Len(a.e) \div a.sh[1] IN
+                  ArrT(Tup([i \in 1..a.sh[1] |-> ArrayT([sh |-> Tail(a.sh), e |-> SubSeq(a.e, (i - 1) * m + 1, i * m)])],
+                           a.sh[1]))
 
 \* names spelt with letters only (such a name directly after a number would be read as a suffix; Render never does that)
 AlphaName(s) == s \notin {"arctan2", "log10", "log2"}
@@ -598,6 +623,8 @@ ValueFits(e, o) ==
                                         /\ (e.ranges # {} => \E iv \in e.ranges : MicroIn(o.mu, iv)))
     [] e.k = "offreal" -> o.sh = <<>>
     [] e.k = "underflow" -> o.sh = <<>> /\ o.sgn = 0
+    [] e.k = "silentsqrt" -> o.sh = <<>> /\ o.real /\ o.sgn >= 0 /\ o.sq = <<e.q>>
+    [] e.k = "numberlike" -> TRUE
     [] OTHER -> FALSE
 Accepts(e, o) ==
   CASE Allowed(e) = "err" -> GoodErr(o)
@@ -681,6 +708,11 @@ LawAngle(x, y) == (x[1] # 0 \/ y[1] # 0) =>
 LawKronecker(z, w) == LET k(a, b) == Apply("formula", "kronecker", <<Sc(a), Sc(b)>>).v.e[1] IN
   /\ k(z, w) = k(w, z) /\ k(z, z) = GI(1) /\ k(z, w) \in {GI(0), GI(1)} /\ (k(z, w) = GI(1) <=> z = w)
 \* exact layer, arrays
+LawRevAxes(t) == /\ RevAxes3(RevAxes3(t)) = t /\ Norm2(RevAxes3(t)) = Norm2(t) /\ A!WellFormed(RevAxes3(t))
+                 \* entry (i, j, k) of t is entry (k, j, i) of the reversed array
+                 /\ \A i \in 1..t.sh[1], j \in 1..t.sh[2], k \in 1..t.sh[3] :
+                       t.e[(i - 1) * t.sh[2] * t.sh[3] + (j - 1) * t.sh[3] + k]
+                       = RevAxes3(t).e[(k - 1) * t.sh[2] * t.sh[1] + (j - 1) * t.sh[1] + i]
 LawTranspose(m) == /\ A!Transpose(A!Transpose(m)) = m
                    /\ ConjArr(A!Transpose(m)) = A!Transpose(ConjArr(m))
                    /\ Norm2(A!Transpose(m)) = Norm2(m)
